@@ -8,11 +8,25 @@ HERE = os.path.dirname(os.path.abspath(__file__))
 SCHED_NOTE = ("Trusted base: the verifvs scheduler/instrumenter (instrumented sources must pass the repository's own tests at setup); "
               "virtual time assumes computation is instantaneous relative to timers; bounds as reported in the evidence file.")
 
+U = "every interleaving (unbounded preemptions; sleep-set partial-order reduction, sound for data-race-free code)"
+
 CHECKS = {
+    "C02": {
+        "script": "c02.py", "category": "model_checking",
+        "technique": "stateless model checking of the real broker code under a controlled scheduler (exhaustive DFS over schedules with sleep-set reduction, virtual time)",
+        "text": U + " of the real IPC/HTTP/AMP handlers, Broker() and timers for <=2-3 proxies x <=2 clients x answer behaviours x entry points {IPC, POST, legacy POST, AMP GET} x fingerprints {none, default, second bridge, absent}; oracle on every execution: answers routed to the client whose offer the answering poll received, each offer in <=1 poll, relay URL of the named bridge, absent bridge never matched.",
+        "design_ref": "§3 C02", "note": SCHED_NOTE,
+    },
+    "C03": {
+        "script": "c03.py", "category": "model_checking",
+        "technique": "stateless model checking of the real broker code under a controlled scheduler (exhaustive DFS over schedules with sleep-set reduction, virtual time)",
+        "text": U + " for all populations of <=3 waiting proxies (NAT x load x type) and <=2 concurrent clients (all NAT spellings incl. empty/absent); oracle: pool compatibility, refusal only when the eligible pool is exhausted, least-loaded proxy first, /debug counts equal the reference population and zero afterwards.",
+        "design_ref": "§3 C03", "note": SCHED_NOTE,
+    },
     "C04": {
         "script": "c04.py", "category": "model_checking",
         "technique": "stateless model checking of the real broker code under a controlled scheduler (preemption-bounded DFS + happens-before state cache, virtual time)",
-        "text": "All interleavings (unbounded for 1x1, preemption-bounded for 2x1/1x2/2x2) of real IPC.ProxyPolls/ClientOffers/ProxyAnswers, Broker() and their timers for arrivals at {0,5s,=timeout,>timeout} and answers prompt/at-timeout/late/never/duplicate/unknown-id; every request thread must return within 10 s virtual time and the broker must be empty afterwards (map, heaps, gauge, /debug, fresh client).",
+        "text": U + " of real IPC.ProxyPolls/ClientOffers/ProxyAnswers, Broker() and their timers for arrivals at {0,5s,=timeout,>timeout} and answers prompt/at-timeout/late/never/duplicate/unknown-id; every request thread must return within 10 s virtual time and the broker must be empty afterwards (map, heaps, gauge, /debug, fresh client).",
         "design_ref": "§3 C04", "note": SCHED_NOTE,
     },
 }
